@@ -183,6 +183,11 @@ def _build_plan(ctx: RunContext, context: OptimizerContext, spec: dict, level: i
     for tag in spec.get("recorders", ["a"]):
         plan.add_handler("sim/recorder", ctx=ctx, tag=f"h{level}{tag}", level=level)
     for sspec in spec["steps"]:
+        if sspec.get("same_as") is not None:
+            # the step object of an earlier entry is run once more (a restart loop in the user's code)
+            first = built["steps"][sspec["same_as"]]
+            built["steps"].append({"id": first["id"], "spec": sspec, "nested": None, "plan": first["plan"], "index": first["index"]})
+            continue
         owner, owner_level = plan, level
         if sspec.get("child"):
             # the step lives in a plan of its own that was created as a child of this plan (Plan(context, parent=plan))
@@ -243,13 +248,15 @@ def _run_built(ctx: RunContext, built: dict, configs: list[dict], variables=None
         if isinstance(cfg, dict) and ctx.scn.get("subconfig_objects"):
             # the user builds the variable and non-linear constraint settings as objects of their own (created once,
             # user domain) and puts the same objects into the configuration of every step
-            from ropt.config.enopt import NonlinearConstraintsConfig, VariablesConfig
+            from ropt.config.enopt import GradientConfig, NonlinearConstraintsConfig, VariablesConfig
 
             store = ctx.__dict__.setdefault("subconfig_store", {})
             if sspec["cfg"] not in store:
                 objs = {"variables": VariablesConfig(**cfg["variables"])}
                 if cfg.get("nonlinear_constraints"):
                     objs["nonlinear_constraints"] = NonlinearConstraintsConfig(**cfg["nonlinear_constraints"])
+                if cfg.get("gradient"):
+                    objs["gradient"] = GradientConfig(**cfg["gradient"])
                 store[sspec["cfg"]] = objs
             cfg.update(store[sspec["cfg"]])
         kwargs: dict[str, Any] = {"config": cfg}
@@ -272,6 +279,8 @@ def _run_built(ctx: RunContext, built: dict, configs: list[dict], variables=None
             kwargs["nested_optimization"] = inner["plan"]
         if sspec.get("metadata") is not None:
             kwargs["metadata"] = sspec["metadata"]
+        # (number of evaluator calls before each step run: lets a check cut the call list by step run)
+        ctx.__dict__.setdefault("call_marks", []).append(len(ctx.evaluator.calls))
         try:
             code = st.get("plan", plan).run_step(st["id"], **kwargs)
             ctx.exits.append(("ret", st["index"], None if code is None else int(code)))
